@@ -600,6 +600,12 @@ def run(ctx):
             continue
         small = min(items, key=lambda it: len(json.dumps(it[0])))
         sc = shrink(H, scratch, small[0], cid, timeout_s, skip) if len(viol) < 4 else small[0]
+        if sc.get("base", "").startswith(vlib.BUILD):
+            # a library-written base lives in the per-run scratch directory: the replay carries its bytes
+            try:
+                sc = dict(sc, base_hex=open(sc["base"], "rb").read().hex())
+            except OSError:
+                pass
         viol.append(dict(what="%s [%d input(s) in class %s]" % (desc, len(items), cid), failing_input=sc,
                          impl={k: v for k, v in small[1].items() if k not in ("stack",)}, stack=(small[1].get("stack") or small[1].get("stderr") or "")[:1500],
                          proposed_known_class=kf))
@@ -665,6 +671,12 @@ def replay(ctx, path):
         return [1] if r["raw"]["c"] == "panic" else []
     scratch = vlib.scratch()
     kids = known_ids()
+    if case.get("base_hex") and not os.path.exists(case.get("base", "")):
+        bp = os.path.join(scratch, "replay-base.h5")
+        with open(bp, "wb") as f:
+            f.write(bytes.fromhex(case["base_hex"]))
+        case = dict(case, base=bp)
+    case = {k: v for k, v in case.items() if k != "base_hex"}
     r = c07pool.run_cases(ctx.harness, [case], scratch, timeout_s=30, workers=1)[0]
     k = classify(r, case)
     print("input:", json.dumps({kk: vv for kk, vv in case.items() if kk != "patches"})[:400], "changed:", [[o, h[:40]] for o, h in case.get("patches", [])][:8])
